@@ -1,5 +1,6 @@
 """C09 - JAX text loaders (clauses: KIND prefix/variant/annotate, DOM `NOT`, ROLE column maps, file<->parser, obo keys)"""
 import re
+from engines import error_blocks
 from engines import adaptor_chain, TRUNCATING_ADAPTORS, enum_arms, split_columns, columns_of, user_root_locals, string_key_arms, str_const, kind_of_callee, positive_edges, const_str_of
 from prov import Prov, params_of, field_names
 
@@ -269,7 +270,37 @@ def run(ck, prog, ctx):
                     if at[0] == "call" and at[3] == tf.id and at[1].endswith("try_from"):
                         ct = tf.blocks[at[4]].term
                         roots |= user_root_locals(tf, pvn, ct.args[0], stop=allk)
-            ck.ob("ROLE", "obo/replacement", key_of(roots) == ["replaced_by"], "the replacement is parsed from the value of key %s" % (key_of(roots) or "?"), where=tf.where(t.line))
+                    # Option::map(|v| HpoTermId::try_from(v)) form: the parsed text is the receiver of the adaptor
+                    if at[0] == "call" and at[3] == tf.id and at[1].rsplit("::", 1)[-1] in ("map", "and_then", "map_or", "map_or_else"):
+                        ct = tf.blocks[at[4]].term
+                        cl = prog.bodies.get(pv.closure_of_operand(tf, ct.args[-1])) if len(ct.args) > 1 else None
+                        if cl is not None and any(x.callee.method == "try_from" for _, x in cl.calls()):
+                            roots |= user_root_locals(tf, pvn, ct.args[0], stop=allk)
+            if not roots:
+                ck.undecided("ROLE", "obo/replacement", "the expression stored as replacement is not a recognised parse of a key's value", where=tf.where(t.line))
+            else:
+                ck.ob("ROLE", "obo/replacement", key_of(roots) == ["replaced_by"], "the replacement is parsed from the value of key %s" % (key_of(roots) or "?"), where=tf.where(t.line))
+            # the replacement is independent of the other keys: its store is not guarded by a test on another key's value
+            errs = error_blocks(tf)
+            foreign = set()
+            for sbi in sorted(tf.reach):
+                x = tf.blocks[sbi].term
+                if x.k != "switch":
+                    continue
+                for tg in set(tf.succ[sbi]):
+                    if not tf.edge_dominates((sbi, tg), bi):
+                        continue
+                    others = [y for y in tf.succ[sbi] if y != tg and y not in errs and tf.blocks[y].term.k != "unreachable"]
+                    if not any(any(e in tf.reachable_from(y, avoid_blocks=errs) for e in tf.exits) for y in others):
+                        continue
+                    groots = set(user_root_locals(tf, pvn, x.discr, stop=allk))
+                    if x.discr.place is not None:
+                        for kind_, pos_, d_ in pvn.defs(tf).get(x.discr.place.local, []):
+                            if kind_ == "call":
+                                for a_ in d_.args:
+                                    groots |= set(user_root_locals(tf, pvn, a_, stop=allk))
+                    foreign |= set(key_of(groots)) - {"replaced_by", "id", "name"}
+            ck.ob("ROLE", "obo/replacement-independent", not foreign, "the replacement is stored %s" % ("whenever the `replaced_by` key is present" if not foreign else "only under a test on the value of %s: a term with `replaced_by` but without that value loses its replacement" % sorted(foreign)), where=tf.where(t.line))
     # `key: value` lines: the value is everything after the FIRST separator
     plb = prog.body(O + "parse_line")
     if plb is None:
